@@ -27,11 +27,22 @@ class Payload:
         return f'Payload({self.tid})'
 
 
-def _work(payload, raising, delays):
+class TwoArg(Exception):
+    """An ordinary user exception: two constructor arguments, one message handed to Exception.  It pickles (by reference to the class
+    and `args`), but unpickling calls TwoArg('3-boom') and fails - the commonest way an exception cannot cross a process boundary."""
+
+    def __init__(self, a, b):
+        super().__init__(f'{a}-{b}')
+        self.a, self.b = a, b
+
+
+def _work(payload, raising, delays, exc_kind='plain'):
     d = delays.get(payload.tid, 0)
     if d:
         time.sleep(d / 1000.0)
     if payload.tid in raising:
+        if exc_kind == 'twoarg':
+            raise TwoArg(payload.tid, 'boom')
         raise (KeyError if payload.tid % 2 == 0 else ZeroDivisionError)('boom %d' % payload.tid)
     return payload.tid * 10
 
@@ -87,9 +98,9 @@ def record_run(case):
             kw = {'parallel': branch != 'seq', 'max_workers': case['workers']}
             if case.get('entry') == 'legacy':
                 from tatsu.parproc import parallel_proc
-                loop = parallel_proc(source, _work, raising, delays, **kw)
+                loop = parallel_proc(source, _work, raising, delays, case.get('exc_kind', 'plain'), **kw)
             else:
-                loop = parproc(_work, source, raising, delays, **kw)
+                loop = parproc(_work, source, raising, delays, case.get('exc_kind', 'plain'), **kw)
             other = None
             if case.get('second_loop'):
                 # another call of parproc() is alive at the same time (its events are not recorded): it is started first, advanced
